@@ -1,10 +1,10 @@
 (* C22 -- Cazacu 2004 (isotropic), N = 1: proofs (written by mkcoq.py, committed).  One lemma per entry of the gradient / Jacobian:
-   the cut quantities are abstracted as functions of the varying component with the derivatives proved in C22InvCuts1.v,
+   the cut quantities are abstracted as functions of the varying component with the derivatives proved in C22InvCuts_iso1.v,
    auto_derive differentiates the traced leaf, the result is compared with the traced derivative by field. *)
 From Coq Require Import Reals List Lra.
 From Coquelicot Require Import Coquelicot.
 From VLib Require Import RealExtra.
-From C22 Require Import C22InvSpec C22InvTac C22inv_gen C22InvStatements C22InvCuts1 C22InvCrit.
+From C22 Require Import C22InvSpec C22InvTac C22inv_gen C22InvStatements C22InvCuts_iso1 C22InvCrit.
 Import ListNotations.
 Local Open Scope R_scope.
 
